@@ -1,6 +1,7 @@
 CONSTANTS
   Strict = TRUE
   EnvVars <- NoEnv
+  EnvNames <- NoEnvNames
   Deviations = {}
   KnownDevs = {"TupleEqUnordered", "AndOrRightUnchecked"}
   Fam <- FamOps
